@@ -69,7 +69,6 @@ func stripWiden(v ssa.Value) ssa.Value {
 	}
 }
 
-
 // hdrStore describes one constant-index store into the output buffer.
 type hdrStore struct {
 	idx  int64
